@@ -73,6 +73,8 @@ class Env:
 
     def __init__(self, fmt):
         from breezy.repository import Repository
+        from mc import procs
+        procs.install_virtual_time()        # LockDir.wait_lock must not really sleep (names lock left held by a fault)
         self.fmt = fmt
         self.chk = fmt == "2a"
         self.src_store = new_store()
@@ -365,21 +367,44 @@ def run_flow(e, target, order, finish, fault_k=None):
                 hook = crash.FaultAt(fault_k) if fault_k is not None else None
                 try:
                     outcome = try_commit(repo, finish == "sink-commit", s, hook)
-                except InjectedFault:
-                    outcome = "fault"
-                    fired = hook.fired
+                except Exception:  # noqa
+                    if hook is None or hook.fired is None:
+                        raise
+                    outcome = "fault"      # InjectedFault, or what the code made of it (e.g. LockFailed)
                 steps += 1
-                if hook is not None and hook.fired is None and outcome != "fault":
-                    outcome = "no-fault:" + outcome
+                if hook is not None:
+                    fired = hook.fired
+                    if fired is None:
+                        outcome = "no-fault:" + outcome
+                    elif outcome == "accepted":
+                        outcome = "fault-swallowed:accepted"
                 if outcome.startswith("refused") or outcome == "fault":
                     if outcome.startswith("refused") and e.pack_names() != before_names:
                         raise Observed("commit:refused-but-pack-names-changed", {"outcome": outcome})
-                    repo.abort_write_group()
+                    if repo.is_in_write_group():
+                        # error paths in breezy abort with suppress_errors=True
+                        repo.abort_write_group(suppress_errors=(outcome == "fault"))
                     steps += 1
             # the same object's view after the group is over
             if repo.is_in_write_group():
                 raise Observed("flow:write-group-still-open", {"outcome": outcome})
             same_obj = visible(repo)
+            early = None
+            if outcome == "fault":
+                # while this process still holds the lock: what do other processes see, what is on disk;
+                # then the process carries on with an unrelated write group
+                with _read_locked(e.open(target)) as fresh0:
+                    early = {"vis": visible(fresh0), "names": e.pack_names(), "files": e.repo_files()}
+                from breezy.errors import LockContention
+                repo.start_write_group()
+                repo.texts.add_lines(XKEY, [], [b"unrelated\n"])
+                try:
+                    repo.commit_write_group()
+                except LockContention:
+                    # the fault hit the release of the pack-names lock, which stays held (C27's subject)
+                    early["blocked"] = True
+                    repo.abort_write_group(suppress_errors=True)
+                steps += 2
         finally:
             if repo.is_in_write_group():
                 try:
@@ -403,8 +428,33 @@ def run_flow(e, target, order, finish, fault_k=None):
         raise Observed("%s:unreadable-afterwards:%s:%s" % (finish if fault_k is None else "fault+abort",
                                                           type(err).__name__, innermost(err)),
                        {"error": repr(err)[:300], "outcome": outcome})
+    if early is not None:
+        vis2 = {k: (dict(v) if isinstance(v, dict) else v) for k, v in vis.items()}
+        if early.get("blocked"):
+            vis2 = None
+        elif XKEY not in vis2["texts"]:
+            raise Observed("fault+abort:followup-commit-lost", {})
+        else:
+            del vis2["texts"][XKEY]
+        return {"outcome": outcome, "vis": early["vis"], "same_obj": same_obj, "names": early["names"],
+                "files": early["files"], "steps": steps, "fired": fired, "after_followup": vis2}
     return {"outcome": outcome, "vis": vis, "same_obj": same_obj, "names": e.pack_names(), "files": e.repo_files(),
             "steps": steps, "fired": fired}
+
+
+XKEY = (b"x-id", b"rx")
+
+
+class _read_locked:
+    def __init__(self, repo):
+        self.repo = repo
+
+    def __enter__(self):
+        self.repo.lock_read()
+        return self.repo
+
+    def __exit__(self, *a):
+        self.repo.unlock()
 
 
 def digest(vis):
@@ -425,7 +475,7 @@ def check_unchanged(e, target, r, what):
     return None
 
 
-def check_accepted(e, target, S, r):
+def check_accepted(e, target, S, r, finish):
     before_vis = e.before[target][0]
     ins = set()
     for it in S:
@@ -435,14 +485,14 @@ def check_accepted(e, target, S, r):
     for view in ("vis", "same_obj"):
         got = keyset(r[view])
         if got != want:
-            return "commit:accepted-but-visible-keys-differ-from-inserted" + ("" if view == "vis" else ":same-object")
+            return "%s:accepted-but-visible-keys-differ-from-inserted" % finish + ("" if view == "vis" else ":same-object")
         for (n, k) in want:
             h = r[view][n][k]
             if h == "ABSENT" or (h != e.fulltext[(n, k)]):
-                return "commit:accepted-but-text-differs-from-source"
+                return "%s:accepted-but-text-differs-from-source" % finish
     new_revs = {k[0] for (n, k) in ins if n == "revisions"}
     if set(r["vis"]["revs"]) - set(before_vis["revs"]) - set(e.fallback_revs(target)) != new_revs:
-        return "commit:accepted-but-all_revision_ids-wrong"
+        return "%s:accepted-but-all_revision_ids-wrong" % finish
     return None
 
 
@@ -507,7 +557,7 @@ def _work(chunk):
                         what += ":resumed"
                     sig = check_unchanged(e, target, r, what)
                 elif r["outcome"] == "accepted":
-                    sig = check_accepted(e, target, S, r)
+                    sig = check_accepted(e, target, S, r, finish)
                 else:
                     sig = "flow:unexpected-outcome:%s" % r["outcome"]
                 if sig is None and finish in ("commit", "sink-commit"):
@@ -572,10 +622,25 @@ def _fault_work(chunk):
             if r["outcome"].startswith("no-fault"):
                 acc.n -= 1
                 break
+            if r["outcome"].startswith("refused"):
+                continue          # the fault was absorbed and the group refused as without it
             acc.count("transitions", r["steps"])
             acc.nt((fmt, target, S, finish, k))
             d["faulted_op"] = r["fired"].brief() if r["fired"] is not None else None
             sig = check_unchanged(e, target, r, "fault+abort")
+            if r["outcome"] == "fault" and sig is None or (sig or "").endswith(("same-object-still-sees-group-data",
+                                                                                  "files-left-behind")):
+                # whatever this object still believes, a later commit must not publish the aborted group
+                if r["after_followup"] is None:
+                    acc.count("followup_blocked_by_names_lock_left_held")
+                elif r["vis"] == e.before[target][0] and r["after_followup"] != e.before[target][0]:
+                    sig = "fault+abort:aborted-data-published-by-later-write-group"
+                    acc.count("violations:%s:%s" % (fmt_class(fmt), sig))
+                    key = (len(S), k, fmt, target, S)
+                    full = "%s:%s" % (fmt_class(fmt), sig)
+                    if full not in acc.best or key < acc.best[full][0]:
+                        acc.best[full] = (key, dict(d))
+                    sig = check_unchanged(e, target, r, "fault+abort")
             if sig is not None:
                 # the fault may have hit after the commit point: then the complete commit must be there
                 if r["vis"] == ref["vis"] and r["same_obj"] in (ref["vis"], e.before[target][0]):
@@ -652,6 +717,7 @@ def run(ctx):
         "faults_after_commit_point": acc.counters.get("faults_after_commit_point", 0),
         "knitpack_accepts_new_revision_without_inventory": acc.counters.get("knitpack_accepts_new_revision_without_inventory", 0),
         "faults_leaving_unlisted_files": acc.counters.get("faults_leaving_unlisted_files", 0),
+        "followup_blocked_by_names_lock_left_held": acc.counters.get("followup_blocked_by_names_lock_left_held", 0),
         "violation_counts": {k[len("violations:"):]: v for k, v in acc.counters.items() if k.startswith("violations:")},
         "rule": ("one evaluation = one (format, target, insertion order, finishing sequence) run on a restored store; "
                  "states = distinct (config, subset, finish, outcome, visible-state digest); non-trivial = subset neither "
